@@ -50,7 +50,8 @@ def mk_cfg(interference=False):
 
     def fits_writeto(ex, f, args, kwargs, fr):
         ow = kwargs.get("overwrite", VBool(False))
-        FSM.write(ex, kwargs.get("filename", args[0] if args else None), data_id(ex, kwargs.get("data")), "truncate" if ex.truth(ow) is True else "exclusive")
+        # fits.writeto(filename, data, header=None, ...): either argument may be given by position
+        FSM.write(ex, kwargs.get("filename", args[0] if args else None), data_id(ex, kwargs.get("data", args[1] if len(args) > 1 else None)), "truncate" if ex.truth(ow) is True else "exclusive")
         return NONE
     cfg.lib_prefix["astropy."] = lambda ex, f, args, kwargs, fr: fits_writeto(ex, f, args, kwargs, fr) if f.name.endswith("fits.writeto") else boundary._lib_call(ex, f, args, kwargs, fr)
     # method calls on boundary objects that write: hdu.writeto(path, overwrite=False), img.save(path), data.to_csv(path)
